@@ -324,19 +324,53 @@ class PA:
             return True
         return False
 
-    def stmts(self, body, k, in_try=False):
-        """continuation-style translation of a statement list; k = Gallina term for what follows"""
+    def implies_for(self, e):
+        """the test being true implies isinstance(s, LoopIR.For)"""
+        if self.is_isinstance_s_quiet(e) == ["For"]:
+            return True
+        if isinstance(e, ast.BoolOp) and isinstance(e.op, ast.And):
+            return any(self.implies_for(v) for v in e.values)
+        return False
+
+    def implies_for_when_false(self, e):
+        """the test being false implies isinstance(s, LoopIR.For)"""
+        if isinstance(e, ast.UnaryOp) and isinstance(e.op, ast.Not):
+            return self.implies_for(e.operand)
+        if isinstance(e, ast.BoolOp) and isinstance(e.op, ast.Or):
+            return any(self.implies_for_when_false(v) for v in e.values)
+        return False
+
+    def is_isinstance_s_quiet(self, e):
+        try:
+            return self.is_isinstance_s(e)
+        except Unsupported:
+            return None
+
+    @staticmethod
+    def always_leaves(body):
+        return bool(body) and isinstance(body[-1], (ast.Return, ast.Raise))
+
+    def stmts(self, body, k, in_try=False, known=False):
+        """continuation-style translation of a statement list; k = Gallina term for what follows;
+        known = s is known to be a LoopIR.For here"""
         if not body:
             return k
         st, rest = body[0], body[1:]
         if isinstance(st, ast.Pass):
-            return self.stmts(rest, k, in_try)
+            return self.stmts(rest, k, in_try, known)
         if isinstance(st, ast.Expr) and isinstance(st.value, ast.Constant):
-            return self.stmts(rest, k, in_try)
+            return self.stmts(rest, k, in_try, known)
+        if (isinstance(st, ast.Assign) and len(st.targets) == 1 and isinstance(st.targets[0], ast.Name)
+                and self.is_super_map_s(st.value)):
+            # `r = super().map_s(s)`: the descent happens here; r may only be returned
+            self.result_vars.add(st.targets[0].id)
+            return "(t_seq SUPER %s)" % self.stmts(rest, k, in_try, known)
         if isinstance(st, ast.Return):
             if in_try:
                 fail(self.src, st, "return inside try/except")
             if st.value is None or (isinstance(st.value, ast.Constant) and st.value.value is None):
+                return "t_skip"
+            if isinstance(st.value, ast.Name) and st.value.id in self.result_vars:
                 return "t_skip"
             if self.is_super_map_s(st.value):
                 return "SUPER"
@@ -347,20 +381,24 @@ class PA:
             return "t_raise"
         if isinstance(st, ast.Expr):
             if self.is_check_call(st.value):
-                return "(t_seq (t_check chk s) %s)" % self.stmts(rest, k, in_try)
+                return "(t_seq (t_check chk s) %s)" % self.stmts(rest, k, in_try, known)
             if self.is_err_call(st.value):
-                return "(t_seq (t_err s) %s)" % self.stmts(rest, k, in_try)
+                return "(t_seq (t_err s) %s)" % self.stmts(rest, k, in_try, known)
             if self.is_super_map_s(st.value):
-                return "(t_seq SUPER %s)" % self.stmts(rest, k, in_try)
+                return "(t_seq SUPER %s)" % self.stmts(rest, k, in_try, known)
             fail(self.src, st, "expression statement")
         if isinstance(st, ast.If):
-            c = self.cond(st.test)
-            kk = self.stmts(rest, k, in_try)
+            c = self.cond(st.test, known)
+            kb = known or self.implies_for(st.test)
+            ko = known or self.implies_for_when_false(st.test)
+            # what is known after the if: a branch that always leaves contributes nothing
+            kr = known or (self.always_leaves(st.body) and ko) or (self.always_leaves(st.orelse) and kb)
+            kk = self.stmts(rest, k, in_try, kr)
             if not any(isinstance(n, (ast.Return, ast.Raise)) for q in st.body + st.orelse for n in ast.walk(q)):
                 # both branches fall through: no need to duplicate the continuation
-                return "(t_seq (t_if %s %s %s) %s)" % (c, self.stmts(st.body, "t_skip", in_try),
-                                                       self.stmts(st.orelse, "t_skip", in_try), kk)
-            return "(t_if %s %s %s)" % (c, self.stmts(st.body, kk, in_try), self.stmts(st.orelse, kk, in_try))
+                return "(t_seq (t_if %s %s %s) %s)" % (c, self.stmts(st.body, "t_skip", in_try, kb),
+                                                       self.stmts(st.orelse, "t_skip", in_try, ko), kk)
+            return "(t_if %s %s %s)" % (c, self.stmts(st.body, kk, in_try, kb), self.stmts(st.orelse, kk, in_try, ko))
         if isinstance(st, ast.Try):
             if st.orelse or st.finalbody or len(st.handlers) != 1:
                 fail(self.src, st, "try with else/finally or several handlers")
@@ -370,9 +408,9 @@ class PA:
                 fail(self.src, h, "except clause that does not catch every exception of the check")
             if h.name is not None:
                 pass  # `except Exception as e:` binds e; its uses are checked effect-free below
-            a = self.stmts(st.body, "t_skip", True)
-            hh = self.stmts(h.body, "t_skip", True)
-            return "(t_seq (t_try %s %s) %s)" % (a, hh, self.stmts(rest, k, in_try))
+            a = self.stmts(st.body, "t_skip", True, known)
+            hh = self.stmts(h.body, "t_skip", True, known)
+            return "(t_seq (t_try %s %s) %s)" % (a, hh, self.stmts(rest, k, in_try, known))
         fail(self.src, st, "statement")
 
     def translate_map_s(self):
@@ -381,6 +419,7 @@ class PA:
         if len(args) != 2 or args[0] != "self" or f.args.vararg or f.args.kwarg or f.args.kwonlyargs:
             fail(self.src, f, "signature of map_s")
         self.svar = args[1]
+        self.result_vars = set()
         return self.stmts(strip_doc(f.body), "t_skip")
 
 
